@@ -256,6 +256,12 @@ impl<'a> VisitMut for Marker<'a> {
                     }
                 }
             }
+            // before-loop N: right before the loop statement (the loop body starts with its `__vx_loop!(N)` marker by now)
+            {
+                let body: Option<&syn::Block> = match &st { Stmt::Expr(Expr::While(w), _) => Some(&w.body), Stmt::Expr(Expr::Loop(l), _) => Some(&l.body), _ => None };
+                let num = body.and_then(|b| b.stmts.iter().find_map(|s| if let Stmt::Macro(m) = s { if m.mac.path.is_ident("__vx_loop") { m.mac.tokens.to_string().trim().parse::<usize>().ok() } else { None } } else { None }));
+                if let Some(nl) = num { if let Some(t) = self.spec.before_loop.get(&nl).cloned() { let mk = self.marker(&t, vec![], "before-loop"); out.push(mk); } }
+            }
             // before-if / then-start anchors on `if COND { .. }` statements
             if let Stmt::Expr(Expr::If(ife), _) = &mut st {
                 let cond = norm(&ife.cond.to_token_stream().to_string());
@@ -359,8 +365,13 @@ impl<'a> VisitMut for Marker<'a> {
             syn::visit::Visit::visit_expr(&mut f, &a.body);
             if !f.found.is_empty() { let b = (*a.body).clone(); *a.body = parse_quote!({ #b }); }
         }
+        // dead-arm: probes inside an arm the contract declares (and the proof shows) unreachable are expected to verify
+        let pt: String = norm(&a.pat.to_token_stream().to_string()).chars().filter(|ch| !ch.is_ascii_digit()).collect();
+        let dead = self.spec.dead_arms.iter().any(|(f, c)| *c == pt && (f == "-" || self.features.contains(f)));
+        let start = *self.probe_n;
         visit_mut::visit_arm_mut(self, a);
         if let Expr::Block(b) = &mut *a.body { if let Some(p) = self.probe() { b.block.stmts.insert(0, p); } }
+        if dead { for k in start..*self.probe_n { self.dead_probes.push(k); } }
     }
     fn visit_expr_return_mut(&mut self, r: &mut syn::ExprReturn) {
         visit_mut::visit_expr_return_mut(self, r);
